@@ -89,6 +89,7 @@ func main() {
 	shardSize := fs.Int("shard", 400, "cases per shard")
 	fs.Parse(os.Args[3:])
 
+	flagIn = *in
 	if cmd == "aux" {
 		runAux(id, *tier, *seed, *out)
 		return
@@ -242,12 +243,17 @@ func writeJSON(path string, v any) {
 // runAux dispatches auxiliary, non-case-file commands (translator tables, stress drivers).
 var auxRegistry = map[string]func(tier string, seed uint64, out string){}
 
+// flagIn is the -in flag (input file of auxiliary child commands).
+var flagIn string
+
 func runAux(id, tier string, seed uint64, out string) {
 	f, ok := auxRegistry[id]
 	if !ok {
 		fmt.Fprintf(os.Stderr, "unknown aux command %s\n", id)
 		os.Exit(2)
 	}
-	must(os.MkdirAll(out, 0o755))
+	if out != "." {
+		must(os.MkdirAll(out, 0o755))
+	}
 	f(tier, seed, out)
 }
